@@ -321,7 +321,9 @@ class Solver:
             accept = step_result.accepted
             lamb = step_result.lamb
 
-            if lamb >= params.lamb_max:
+            # a step that was cut short by the deadline is not a failed step:
+            # the termination test of the next iteration reports the time limit
+            if lamb >= params.lamb_max and not timer.reached_time_limit():
                 raise Exception(
                     f"Inverse step size {lamb} exceeded maximum {params.lamb_max} (incorrect derivatives?)"
                 )
